@@ -137,6 +137,53 @@ func VerifH_C16_StatusReject() {
 	vrt.Reach("status-reject")
 }
 
+// VerifH_C16_StatusGrammar: a status line is HTTP-version SP 3DIGIT SP
+// reason-phrase (RFC 4918 14.28, RFC 7230 3.1.2). Texts built on the template
+// "HTTP/1.1 <code> <reason>" with one byte of the version, the whole code
+// field (1..4 bytes) and the reason (0..1 byte) arbitrary: accepted exactly
+// when the version is HTTP/digit.digit and the code field is three digits,
+// and then with that code and that reason; otherwise refused and the value
+// left untouched.
+func VerifH_C16_StatusGrammar() {
+	version := []byte("HTTP/1.1")
+	k := vrt.Choose("version-byte", len(version))
+	vb := vrt.Byte("version-byte-value")
+	vrt.Assume(vb != ' ')
+	version[k] = vb
+	nc := 1 + vrt.Choose("code-len", 4)
+	code := vrt.StrN("code", nc)
+	for i := 0; i < nc; i++ {
+		vrt.Assume(code[i] != ' ')
+	}
+	reason := vrt.StrN("reason", vrt.Choose("reason-len", 2))
+	text := string(version) + " " + code + " " + reason
+	var st Status
+	err := st.UnmarshalText([]byte(text))
+	versionOK := vb == "HTTP/1.1"[k]
+	if k == 5 || k == 7 {
+		versionOK = vb >= '0' && vb <= '9'
+	}
+	codeOK := nc == 3
+	val := 0
+	for i := 0; i < nc; i++ {
+		if code[i] < '0' || code[i] > '9' {
+			codeOK = false
+		}
+		val = val*10 + int(code[i]-'0')
+	}
+	if versionOK && codeOK {
+		vrt.Assert(err == nil, "a status line in the RFC's form is accepted")
+		vrt.Assert(st.Code == val && st.Text == reason, "an accepted status line yields its code and reason phrase")
+		vrt.Reach("status-accepted")
+	} else {
+		vrt.Assert(err != nil, "a text outside the status-line grammar (version not HTTP/d.d, code not three digits) is refused")
+		if err != nil {
+			vrt.Assert(st.Code == 0 && st.Text == "", "refused status line leaves the value untouched")
+		}
+		vrt.Reach("status-refused")
+	}
+}
+
 // VerifH_C16_Href: hrefs: any absolute path whose first segment is
 // non-empty survives Marshal/Unmarshal byte for byte (every byte value, up
 // to maxlen bytes), through the real net/url escaping and parsing code.
